@@ -149,6 +149,16 @@ CHECKS = {
             "allocations are not failed. 26 leak / swallowed-failure sites found by the exhaustive run are listed as known "
             "findings by (kind, site).",
             "DESIGN.md section 2, C16"),
+    "C15": ("exploration",
+            "table-driven boundary oracle (L-1, L, L+1, far beyond) plus logical-time monitoring of timeouts under a virtual clock hook",
+            "Each engine limit is approached from both sides and the compile error / scan error / warning message and "
+            "error code are compared with a table taken from limits.h, error.h and the manual; an unrelated witness "
+            "rule and a sentinel compile+scan check independence and continued usability; long-running rule shapes run "
+            "under a virtual clock (1 unit per scanned byte / VM instruction) and must stop within the check cadence "
+            "after the deadline; real-clock smoke runs bound CPU time. All under ASan+UBSan+LSan.",
+            "Trusted: the table in checks/c15.py; hooks H2/H3 (virtual clock, work counters). Work inside module "
+            "functions and string verification is not counted.",
+            "DESIGN.md section 2, C15"),
 }
 
 NOT_YET = "check not built yet in this round (planned in DESIGN.md section 2); nothing is claimed for it"
